@@ -34,7 +34,7 @@ protected:
     /// \endcond
 
 private:
-    int m_tzo;
+    int m_tzo = 0;
     QDateTime m_utc;
 };
 
